@@ -97,6 +97,9 @@ pub struct Case {
     /// warm the regex cache of the router with this limit before matching (0 = never)
     #[serde(default)]
     pub cache: u8,
+    /// the conditioned header is also sent on a second line that does not fit the template: 0 no, 1 `_` before, 2 `_` after, 3 empty after
+    #[serde(default)]
+    pub other_line: u8,
 }
 
 // ---------------------------------------------------------------------------------------------
@@ -232,6 +235,15 @@ pub fn check(case: &Case) -> Outcome {
     let mut headers: Vec<(String, String)> = vec![("X-Other".to_string(), "o1".to_string()), ("x-other".to_string(), "O2".to_string())];
     if let Some((_, req_name, v)) = &case.header_tpl {
         headers.insert(1, (req_name.clone(), fill(v, &case.markers, true)));
+        match case.other_line {
+            1 => headers.insert(1, (req_name.clone(), "_".to_string())),
+            2 => headers.insert(2, (req_name.clone(), "_".to_string())),
+            3 => headers.push((req_name.clone(), String::new())),
+            _ => {}
+        }
+        if case.other_line != 0 {
+            out.class("conditioned-header-on-two-lines");
+        }
     }
     let q = RequestSpec {
         uri: uri.clone(),
@@ -487,9 +499,9 @@ pub fn strategy() -> BoxedStrategy<Case> {
             ref_names.extend(["a".to_string(), "v".to_string(), "r0".to_string(), "r1".to_string(), "id".to_string()]);
             ref_names.sort();
             ref_names.dedup();
-            (Just(config), marker_strats, (Just(li), 0u8..8), variables, header_names, extra, piece_strategy(ref_names.clone()), piece_strategy(ref_names.clone()), piece_strategy(ref_names.clone()), piece_strategy(ref_names))
+            (Just(config), marker_strats, (Just(li), 0u8..8, pickw(vec![(6u32, 0u8), (1, 1), (2, 2), (1, 3)])), variables, header_names, extra, piece_strategy(ref_names.clone()), piece_strategy(ref_names.clone()), piece_strategy(ref_names.clone()), piece_strategy(ref_names))
         })
-        .prop_map(|(config, markers, (li, cache), variables, (hn_rule, hn_req), request_extra, target, header_value, body_text, body_html)| {
+        .prop_map(|(config, markers, (li, cache, other_line), variables, (hn_rule, hn_req), request_extra, target, header_value, body_text, body_html)| {
             let layout = &LAYOUTS[li];
             Case {
                 config,
@@ -504,6 +516,7 @@ pub fn strategy() -> BoxedStrategy<Case> {
                 body_html,
                 request_extra,
                 cache,
+                other_line,
             }
         })
         .boxed()
@@ -517,7 +530,7 @@ pub fn run(ctx: &Ctx) -> Report {
          oracle: all accepted <=> the rule matches, and Location, Action::get_target, the custom header, the serialised body-filter values and the text filter output == reference substitution (single left-to-right pass, longest known name at each @, value = transformer chain applied to the string as the normalised request carries it); \
          non-trivial = >=2 markers with a prefix-related name pair, a chain of >=2 transformers, or markers in two of {path, host, header}; distinct by case hash",
     );
-    rep.assume("acceptance is judged on the string as the normalised request carries it (values are ASCII in paths; hosts and header values are lower-cased under the respective flag); instantiated values contain no '@'; a marker name occurs in one place only; match_regex header conditions are searched (not anchored) by design, so rejected header values contain no accepted fragment; the request carries one header of the conditioned name; heck implements the three case transformers (trusted); slice counts characters");
+    rep.assume("acceptance is judged on the string as the normalised request carries it (values are ASCII in paths; hosts and header values are lower-cased under the respective flag); instantiated values contain no '@'; a marker name occurs in one place only; match_regex header conditions are searched (not anchored) by design, so rejected header values contain no accepted fragment; the request carries the conditioned header once, or (round 4) a second time with a value no template fits, before or after the fitting line; heck implements the three case transformers (trusted); slice counts characters");
     rep.add(run_part(ctx, "markers", ctx.cases(200_000, 8_000_000), strategy, check, &[]));
     rep
 }
